@@ -483,14 +483,75 @@ class StmtMixin:
                 return i
         return -1
 
+    def loop_header(self, st):
+        try:
+            if isinstance(st, ast.While):
+                return 'while ' + ast.unparse(st.test)
+            return 'for ' + ast.unparse(st.target) + ' in ' + ast.unparse(st.iter)
+        except Exception:
+            return ''
+
+    def count_loops(self, qualname):
+        try:
+            fi = self.ex.repo.func(qualname)
+        except KeyError:
+            return None
+        n = 0
+
+        def visit(stmts):
+            nonlocal n
+            for s in stmts:
+                if isinstance(s, ast.FunctionDef):
+                    continue
+                if isinstance(s, (ast.While, ast.For)):
+                    n += 1
+                for fld in ('body', 'orelse', 'finalbody'):
+                    if hasattr(s, fld):
+                        visit(getattr(s, fld))
+                if isinstance(s, ast.Try):
+                    for h in s.handlers:
+                        visit(h.body)
+        visit(fi.node.body)
+        return n
+
     def loop_contract(self, st, fr):
+        """the loop contract for this loop: by position (ordinal among the loops of its function), checked against the contract's header fingerprint if
+        it has one; a loop that has moved (other position, or into a helper without a contract of its own) is followed by fingerprint, or - when the
+        lemma has exactly one loop contract and its function has no loop left - by elimination.  The invariant is checked in every case."""
         o = self.loop_ordinal(st, fr)
         lem = self.ex.lemma
+        hdr = self.loop_header(st)
+
+        def fits(lc):
+            return lc.header is None or lc.header in hdr
         if lem is not None:
-            if fr.fi.qualname == lem.func and o in lem.loops:
-                return lem.loops[o]
-            if (fr.fi.qualname, o) in lem.loops:
+            own = fr.fi.qualname == lem.func
+            ints = {k: v for k, v in lem.loops.items() if isinstance(k, int)}
+            if own and o in ints and fits(ints[o]):
+                return ints[o]
+            if (fr.fi.qualname, o) in lem.loops and fits(lem.loops[(fr.fi.qualname, o)]):
                 return lem.loops[(fr.fi.qualname, o)]
+            by_header = [v for v in lem.loops.values() if v.header and v.header in hdr]
+            if own and o in ints:
+                # the contract at this position is about another loop
+                if len(by_header) == 1:
+                    return by_header[0]
+                raise Undecided(f'the loop contract at position {o} of {lem.func} is about a loop `{ints[o].header}`, this one is `{hdr}`')
+            helper = (not own) and self.ex.contracts.get(fr.fi.qualname) is None and fr.fi.module is not None
+            if helper:
+                if len(by_header) == 1:
+                    return by_header[0]
+                # the lemma's only loop contract, and the function it was written for has no loop any more: the loop was extracted into this helper
+                keyed = list(lem.loops.items())
+                if len(keyed) == 1 and keyed[0][1].header is None:
+                    k = keyed[0][0]
+                    home = lem.func if isinstance(k, int) else k[0]
+                    try:
+                        same_module = self.ex.repo.func(home).module is fr.fi.module
+                    except KeyError:
+                        same_module = False
+                    if same_module and self.count_loops(home) == 0:
+                        return keyed[0][1]
         con = self.ex.contracts.get(fr.fi.qualname)
         if con is None:
             return None
